@@ -296,6 +296,12 @@ func VerifUpdateStep() {
 		}
 	}
 
+	if rt.Prop("C08") && accepted {
+		// nothing the witness stores may make its own next verification fail
+		rt.Name("cosigned.sigLines", rt.SigLines(out))
+		rt.Assert(rt.Valid(post.raw[li], c.origins[li], c.keys[li], nil), "C08/stored-checkpoint-reopens")
+	}
+
 	if rt.Prop("C20") {
 		nA, lA := verifIncs(evs, ctrAttempt, logID)
 		nS, lS := verifIncs(evs, ctrSuccess, logID)
@@ -336,7 +342,9 @@ func verifC09(c *verifCfg, li int, hadPrev bool, prevRaw []byte, oldSize uint64,
 		rt.Assert(uerr == ErrNoValidSignature && out == nil, "C09/2-no-valid-signature")
 		return
 	}
-	signFailed := rt.Count("SignFail") > 0
+	// An accept presupposes that the witness can produce a cosigned note at all: its signers
+	// work, and the result stays within the note format's limit of 100 signature lines.
+	signFailed := rt.Count("SignFail") > 0 || rt.SigLines(nextRaw)+uint64(len(c.wkeys)) > 100
 	if !hadPrev {
 		if oldSize == 0 && len(proof) == 0 && !signFailed {
 			rt.Assert(uerr == nil, "C09/3-first-use-accepted")
